@@ -47,17 +47,18 @@ func (c *chunkConn) Write(p []byte) (int, error) {
 }
 
 type c01Deployment struct {
-	Keys        []ech.Key // client-facing server keys
-	BackendCfg  *tls.Config
-	PublicCfg   *tls.Config // public-name server (holds the real keys)
-	PublicName  string
-	mu          sync.Mutex
-	FrontConns  []*ech.Conn
-	FrontErrs   []error
-	FirstToPub  [][]byte // first record forwarded to the public-name server
-	BackendSt   []tls.ConnectionState
-	BackendErrs []error
-	RelayBuf   int // size of the backend->client relay buffer (0: 32 KiB)
+	Keys            []ech.Key // client-facing server keys
+	BackendCfg      *tls.Config
+	PublicCfg       *tls.Config // public-name server (holds the real keys)
+	PublicName      string
+	mu              sync.Mutex
+	FrontConns      []*ech.Conn
+	FrontErrs       []error
+	FirstToPub      [][]byte // first record forwarded to the public-name server
+	BackendSt       []tls.ConnectionState
+	BackendErrs     []error
+	RelayBuf        int // size of the backend->client relay buffer (0: 32 KiB)
+	SlowWriteReturn bool
 }
 
 // serve handles one client connection the way a split-mode front does.
@@ -181,6 +182,11 @@ func (d *c01Deployment) connect(cfg *tls.Config, chunk int, payload []byte) c01R
 	dl := time.Now().Add(20 * time.Second)
 	cp.SetDeadline(dl)
 	sp.SetDeadline(dl)
+	if d.SlowWriteReturn {
+		// bytes written towards the client are on the wire (and may be answered) a moment
+		// before the Write call returns to the relay
+		sp.OnWrite = func(int) { time.Sleep(300 * time.Microsecond) }
+	}
 	done := make(chan struct{})
 	go d.serve(sp, done)
 	rec := &tlsfx.Recorder{Conn: &chunkConn{Conn: cp, n: chunk}}
@@ -309,6 +315,8 @@ func TestC01(t *testing.T) {
 		if rapid.IntRange(0, 2).Draw(t, "small_relay_buffer") == 0 {
 			d.RelayBuf = []int{1, 3, 7, 100, 517, 1500, 4096}[rapid.IntRange(0, 6).Draw(t, "relay_buf")]
 			cl = append(cl, "backend_records_split_by_relay")
+		} else if rapid.Bool().Draw(t, "slow_write_return") {
+			d.SlowWriteReturn = true
 		}
 		var tlsKeys []tls.EncryptedClientHelloKey
 		for _, k := range keys {
